@@ -1,7 +1,7 @@
 (* C05 — the model interface mirrors the callable's signature.  Statements only; proofs in theories/Interface.v
    over gen/GenInterface.v (the always-keep decision translated from the current source). *)
 From Coq Require Import ZArith String List Bool.
-From J2O Require Import PyLib Onnx Interface.
+From J2O Require Import PyLib Onnx Interface IoNames.
 From J2OGen Require Import GenInterface.
 Import ListNotations.
 
@@ -45,3 +45,41 @@ Theorem C05_interface_ok_spec : forall double ins outs inn outn np m,
     (outn <> None -> names_distinct (map vi_name (og_inputs g) ++ map vi_name (og_outputs g)) = true).
 Proof. exact interface_ok_spec. Qed.
 Print Assumptions C05_interface_ok_spec.
+
+(* ---- user-supplied names (user_interface._apply_custom_io_names_on_ir; model theories/IoNames.v [apply_names]):
+   "applied exactly and never collide", for every top graph (any number of named values) and every list of
+   (value, requested name) pairs *)
+
+(* applied exactly: every value the user names carries exactly that name afterwards *)
+Theorem C05_names_applied_exactly : forall vals pairs vals',
+  apply_names vals pairs = inl vals' ->
+  forall v t, In (v, t) pairs -> forall n, In (v, n) vals' -> n = t.
+Proof. exact apply_exact. Qed.
+Print Assumptions C05_names_applied_exactly.
+
+(* nothing else changes: same values in the same order; a value the user did not name keeps its name *)
+Theorem C05_names_same_values : forall vals pairs vals',
+  apply_names vals pairs = inl vals' -> map fst vals' = map fst vals.
+Proof. exact apply_ids. Qed.
+Print Assumptions C05_names_same_values.
+
+Theorem C05_names_others_untouched : forall vals pairs vals',
+  apply_names vals pairs = inl vals' ->
+  forall v, ~ In v (map fst pairs) -> forall n, In (v, n) vals <-> In (v, n) vals'.
+Proof. exact apply_keeps_others. Qed.
+Print Assumptions C05_names_others_untouched.
+
+(* never collide: pairwise distinct value names stay pairwise distinct (over ALL values of the top graph, not only
+   the interface) *)
+Theorem C05_names_never_collide : forall vals pairs vals',
+  apply_names vals pairs = inl vals' ->
+  NoDup (map fst vals) -> NoDup (map snd vals) -> NoDup (map snd vals').
+Proof. exact apply_injective. Qed.
+Print Assumptions C05_names_never_collide.
+
+(* a requested name equal to the name of ANY value that keeps its name (e.g. an intermediate) is refused *)
+Theorem C05_names_refuse_existing : forall vals pairs v n t w,
+  In (w, t) pairs -> In (v, n) vals -> ~ In v (map fst pairs) -> n = t ->
+  forall vals', apply_names vals pairs <> inl vals'.
+Proof. exact apply_refuses_intermediate. Qed.
+Print Assumptions C05_names_refuse_existing.
